@@ -16,7 +16,10 @@
   Generic, the `commonType` arm); its values (px.IteratorValue) are not part of the value language, so `inst (.iterator _) v = false`.
   Runtime[runtime, name, pattern] (runtimetype.go, types WITHOUT a Go type) likewise: `Ty.runtime rt nm pat`, a leaf; its values
   (*RuntimeValue) are outside the value language.
-  Not modelled (second tier; harness-side predicates only, labelled as tests): Callable, Like, Init, Runtime types that carry a Go type,
+  Callable[params, return, block] (callabletype.go) likewise: `Ty.callable ps rt bl`, each part an `Option Ty` (absent parts matter to the
+  rule); lambdas are outside the value language.  Its rule is NOT transitive through the default Callable (known finding
+  C03-trans-callable-top), so the proofs keep Callable outside the fragments of transitivity.
+  Not modelled (second tier; harness-side predicates only, labelled as tests): Like, Init, Runtime types that carry a Go type,
   TypeReference, SemVer, SemVerRange, URI, TypeSet, the Pcore::* meta types as type terms, user-defined
   recursive aliases.  Non-recursive user aliases are expanded by the harness encoder.  The two built-in recursive aliases
   `Data` and `RichData` are constructors with direct recursive definitions.
@@ -109,6 +112,7 @@ inductive Ty where
   | variant (ts : List Ty)
   | optional (t : Ty) | notUndef (t : Ty) | typ (t : Ty) | sensitive (t : Ty) | iterable (t : Ty)
   | runtime (rt nm : String) (pat : Option String)   -- Runtime[runtime, name, pattern] (runtimetype.go) without a Go type; values outside the value language
+  | callable (ps rt bl : Option Ty)        -- Callable[params, return, block] (callabletype.go): each part may be absent; no value of the value language is a lambda
   | iterator (t : Ty)                     -- Iterator[T] (iteratortype.go); its values (px.IteratorValue) are outside the value language
   | object (p : Option (List Nat))        -- none = default Object; some path = user object type by ancestor path
   deriving Repr, Inhabited
@@ -147,7 +151,11 @@ def Ty.w : Ty → Nat
   | .variant ts => 2 + Ty.wl ts
   | .optional t => 2 + t.w | .notUndef t => 2 + t.w
   | .typ t => 2 + t.w | .sensitive t => 2 + t.w | .iterable t => 2 + t.w | .iterator t => 2 + t.w
+  | .callable ps rt bl => 4 + Ty.wo ps + Ty.wo rt + Ty.wo bl
   | _ => 1
+def Ty.wo : Option Ty → Nat
+  | none => 0
+  | some t => 2 + t.w
 def Ty.wl : List Ty → Nat
   | [] => 0
   | t :: ts => 2 + t.w + Ty.wl ts
@@ -204,8 +212,13 @@ def Ty.beq : Ty → Ty → Bool
   | .typ t, .typ t' => Ty.beq t t'
   | .sensitive t, .sensitive t' => Ty.beq t t'
   | .iterator t, .iterator t' => Ty.beq t t'
+  | .callable p r b, .callable p' r' b' => Ty.beqO p p' && Ty.beqO r r' && Ty.beqO b b'
   | .iterable t, .iterable t' => Ty.beq t t'
   | .object p, .object p' => p == p'
+  | _, _ => false
+def Ty.beqO : Option Ty → Option Ty → Bool
+  | none, none => true
+  | some a, some b => Ty.beq a b
   | _, _ => false
 def Ty.beqL : List Ty → List Ty → Bool
   | [], [] => true
